@@ -586,7 +586,7 @@ def rnd(t):
 
 def g_test(r, axis):
     if axis == "attribute":
-        return r.weighted([("*", 3), ("p", 2), ("q", 1), ("id", 1)])   # attribute::node(): see finding C02-attribute-node-test
+        return r.weighted([("*", 6), ("p", 4), ("q", 2), ("id", 2), ("node()", 1)])   # attribute::node(): finding C02-attribute-node-test
     return r.weighted([("*", 4), ("a", 3), ("b", 2), ("c", 1), ("node()", 3), ("text()", 2), ("comment()", 1),
                        ("processing-instruction()", 1), ("processing-instruction('t')", 1)])
 
@@ -611,7 +611,13 @@ def g_step(r, depth, in_pred):
 
 
 def g_ns(r, depth, in_pred=False):
-    k = r.weighted([("path", 12), ("union", 2 if depth > 0 else 0), ("filter", 3 if depth > 0 else 0), ("var", 2)])
+    k = r.weighted([("path", 12), ("union", 2 if depth > 0 else 0), ("filter", 3 if depth > 0 else 0), ("var", 2),
+                    ("ext", 2 if depth > 0 else 0)])
+    if k == "ext":
+        f = r.choice(["set:difference", "set:intersection", "set:leading", "set:trailing", "set:distinct", "x:distinct", "x:nodeset"])
+        if f in ("set:distinct", "x:distinct", "x:nodeset"):
+            return T("ns", f + "({0})", g_ns(r, depth - 1, in_pred))
+        return T("ns", f + "({0}, {1})", g_ns(r, depth - 1, in_pred), g_ns(r, depth - 1, in_pred))
     if k == "var":
         return T("ns", "$" + r.choice(["na", "nb", "nz"]))
     if k == "union":
@@ -687,8 +693,10 @@ def g_str(r, depth, in_pred):
     if k == "name":
         f = r.choice(["name", "local-name"])
         return T("str", f + "()") if r.chance(1, 3) else T("str", f + "({0})", g_ns(r, depth - 1, in_pred))
-    f = r.choice(["concat", "substring2", "substring3", "normalize-space", "translate"])
+    f = r.choice(["concat", "substring2", "substring3", "normalize-space", "translate", "before", "after"])
     s1 = g_str(r, depth - 1, in_pred)
+    if f in ("before", "after"):
+        return T("str", "substring-" + f + "({0}, {1})", s1, T("str", r.choice(["'a'", "' '", "''", "'2'", "'bc'", "'x y'", "'1'", "'ab'"])) if r.chance(2, 3) else g_str(r, 0, in_pred))
     if f == "concat":
         return T("str", "concat({0}, {1}, {2})", s1, g_str(r, depth - 1, in_pred), T("str", "string({0})", g_int(r, 0, in_pred)))
     if f == "substring2":
@@ -702,7 +710,9 @@ def g_str(r, depth, in_pred):
 
 
 def g_bool(r, depth, in_pred):
-    k = r.weighted([("cmp", 8), ("exists", 3), ("logic", 3 if depth > 0 else 0), ("strfn", 2), ("const", 1)])
+    k = r.weighted([("cmp", 8), ("exists", 3), ("logic", 3 if depth > 0 else 0), ("strfn", 2), ("const", 1), ("same", 1 if depth > 0 else 0)])
+    if k == "same":
+        return T("bool", "set:has-same-node({0}, {1})", g_ns(r, depth - 1, in_pred), g_ns(r, depth - 1, in_pred))
     if k == "const":
         return T("bool", r.choice(["true()", "false()"]))
     if k == "exists":
@@ -840,6 +850,8 @@ def gen_doc2(r, maxnodes=14):
         me = len(table)
         table.append(("e", name, "", parent))
         xml = "<" + name
+        if depth == 0:
+            xml += ' xmlns:set="http://exslt.org/sets" xmlns:x="http://xml.apache.org/xalan"'
         used = set()
         for _ in range(r.weighted([(0, 5), (1, 3), (2, 2)])):
             an = r.choice(["p", "q", "id"])
